@@ -117,7 +117,7 @@ def run(ctx):
 
     # ---- full sweep of the registries (sharded) ----------------------------------------------------
     dims = sorted({id(d): d for d in Dimension._known.values()}.values(), key=lambda d: tuple(d.exponents))
-    prefixes = sorted({id(p): p for p in Prefix._known.values()}.values(), key=lambda p: (p.base, float(p.exponent)))
+    prefixes = sorted({id(p): p for p in Prefix._known.values()}.values(), key=lambda p: (p.base, core.sf(p.exponent)))
     units = [pools.units[n] for n in pools.unit_names]
     for i, d in enumerate(dims):
         if i % ctx.nshards == ctx.shard:
@@ -146,7 +146,7 @@ def run(ctx):
         roundtrip_singleton("unit", model.show(term), u, False)
         if len(cross) < (60 if ctx.tier == "quick" else 600):
             cross.append(("unit", term, u))
-        mag = rng.choice([rng.randint(-10**6, 10**6), 10**30, float(round(rng.uniform(-1e5, 1e5), 4)), 1e-7, Decimal("12.50"), Decimal(repr(round(rng.uniform(-100, 100), 3)))])
+        mag = rng.choice([rng.randint(-10**6, 10**6), 10**30, core.sf(round(rng.uniform(-1e5, 1e5), 4)), 1e-7, Decimal("12.50"), Decimal(repr(round(rng.uniform(-100, 100), 3)))])
         q = Q(mag, u)
         mkind = type(mag).__name__
         ustr_class = None
